@@ -1177,3 +1177,5 @@ CLAUSES = [
 for _c in CLAUSES:
     if _c.name.split(".")[1] not in ("sk_operator_norm", "block_positive"):
         _c.layout_twin = True
+    if _c.name.split(".")[1] in ("decomposition", "mixed_reference", "is_product"):
+        _c.repeat_twin = True  # repeated calls agree; scribbling over a returned array must not affect later calls (engine.call)
